@@ -26,7 +26,7 @@ PARTS = {
     "quick": [("bfs_triangle_7", "MC_Zigzag_tri7.cfg", None, None),
               ("bfs_tetra2skel_6", "MC_Zigzag_tet6.cfg", None, None),
               ("bfs_cells_5", "MC_Zigzag_cel5.cfg", None, None),
-              ("sim_tetra_18", "MC_Zigzag_sim.cfg", 40, 19)],
+              ("sim_tetra_18", "MC_Zigzag_sim.cfg", 30, 19)],
     "thorough": [("bfs_triangle_9", "MC_Zigzag_tri9.cfg", None, None),
                  ("bfs_tetra2skel_8", "MC_Zigzag_tet8.cfg", None, None),
                  ("bfs_cells_6", "MC_Zigzag_cel6.cfg", None, None),
@@ -46,11 +46,31 @@ def run_tlc(part, cfg, sim, depth):
 
 
 # ----------------------------------------------------------------------------- known findings
-def classify(dev):
-    return None
+INF = 1000000
 
 
-MATCHERS = {}
+def sequence_of(g, parent, dev):
+    """the calls made up to and including the deviating one (acts of the model)"""
+    path = [g.out[a][k][0] for a, k in g.path_to(parent, dev["u"])]
+    if dev.get("phase") == "path":
+        return path[:dev["step"] + 1]
+    return path + [dev["act"]]
+
+
+def m_storage_first_value_inf(dev):
+    """C07-storage-first-value-inf: only the value diagram of the storage front end, only under the schedule that starts
+    at +infinity, and only when the first value the object ever received was +infinity."""
+    if not (dev.get("cfg", "").startswith("storage/") and "/dinf/" in dev.get("cfg", "")):
+        return False
+    if not dev.get("diffs") or not all(x["path"] == "obs.crash" or x["path"].startswith("obs.sd_dinf_") for x in dev["diffs"]):
+        return False
+    for a in dev.get("sequence", []):
+        if a["op"] != "identity":
+            return a["fv"]["dinf"] == INF
+    return False
+
+
+MATCHERS = {"C07-storage-first-value-inf": m_storage_first_value_inf}
 
 
 def record_and_validate(ev, bins, executions, steps, work):
@@ -130,7 +150,7 @@ def main(tier):
             exhaustive = exhaustive and True   # the BFS parts are complete; the simulation part is sampling on top
         work = os.path.join(vf.BUILD, "work", "%s_%s_%d" % (PROP, part, os.getpid()))
         shutil.rmtree(work, ignore_errors=True)
-        summ, devs, crashes, nb = vf.replay(g, bins, work, shards=1 if tier == "quick" else 2, timeout=1100)
+        summ, devs, crashes, nb = vf.replay(g, bins, work, shards=2, timeout=1100)
         ev.parts[part]["replay"] = {"behaviours_in_cover": nb, "configs": len(summ),
                                     "behaviours": sum(s["behaviours"] for s in summ.values()),
                                     "steps": sum(s["steps"] for s in summ.values()),
@@ -138,18 +158,16 @@ def main(tier):
                                     "deviations": sum(s["deviations"] for s in summ.values())}
         for c in crashes:
             unknown.append({"kind": "crash", "part": part, **c})
+        parent, _ = g.bfs_tree()
         for d in devs:
+            if d.get("u") is not None:
+                d["sequence"] = sequence_of(g, parent, d)   # makes the replay file self-contained
             fid = fnd.match(PROP, d, MATCHERS)
             if fid is None:
-                # make the replay self-contained: the sequence of calls that leads to the deviation
-                u = d.get("u")
-                if u is not None:
-                    try:
-                        parent, _ = g.bfs_tree()
-                        d["history"] = [g.out[a][k][0] for a, k in g.path_to(parent, u)]
-                    except Exception:
-                        pass
                 unknown.append({"part": part, **d})
+            else:
+                ev.parts[part].setdefault("known_findings", {})
+                ev.parts[part]["known_findings"][fid] = ev.parts[part]["known_findings"].get(fid, 0) + 1
         total_beh += sum(s["behaviours"] for s in summ.values())
         # non-trivial = distinct sequences in which at least one interval was closed
         nontrivial += sum(1 for o in g.obs if o and o.get("diag_set"))
